@@ -60,8 +60,8 @@ type Program struct {
 	// GenConsts are top-level declarations placed in a separate file that carries a
 	// "Code generated ... DO NOT EDIT." header (a stringer/protobuf-like sibling file).
 	GenConsts []string
-	Decls   []Decl
-	Files   [][]int // decl indices per file (file 0 holds types and providers)
+	Decls     []Decl
+	Files     [][]int // decl indices per file (file 0 holds types and providers)
 	// ExtraImports are import spec lines for file 0, e.g. `ttemplate "text/template"`.
 	ExtraImports []string
 	// ReplayTypes: emit types that carry the identity of the term that
